@@ -17,10 +17,12 @@ CLAIMED = {
              "TwoLeafUnitCellBoundingPotentialEventHandler in a real 1-D periodic cell system: candidate time and "
              "bound from the cell bounding potential at the relative cell of the target, true rate at the "
              "minimum-image separation, same confirmation rule, None out-state exactly when the active unit left "
-             "its cell.",
+             "its cell. CompositeObjectCellVetoEventHandler.send_out_state after its real initialize/send_event_time "
+             "(real cells and Walker): true rate = sum over the target's leaves at minimum-image separations, "
+             "same confirmation rule against the proposal's bounding rate, lifting table, None target.",
         note="The sentence 'the scaled 1/r bound dominates the merged-image derivative at every separation' is "
              "outside the claim (truncated Ewald sum of erfc/exp/sin/cos, no SMT theory): a change of the bound's "
-             "prefactor is not detected. Composite-object cell-bounding/cell-veto handlers are not executed. Counterexamples "
+             "prefactor is not detected. TwoCompositeObjectCellBoundingPotentialEventHandler is not executed. Counterexamples "
              "are confirmed by concrete re-execution of the real code at the model's values.",
         technique="symbolic execution of the real event handlers with non-deterministic stub potentials; one QF_LRA "
                   "validity query per obligation and path",
